@@ -113,6 +113,20 @@ def enclosure(chk, site, what, L, R, d, n, exempt_left=(), exempt_right=(), repl
     return True
 
 
+_NUM = [0]
+
+
+def num(x):
+    """the argument as a caller would write it: a whole number goes in as a Python int, a numpy integer or a float in turn (the constructors
+    take numbers; which Python type carries the value must not matter), anything else as a float"""
+    v = float(x)
+    if v == int(v) and abs(v) < 2 ** 53:
+        _NUM[0] += 1
+        return (int(v), np.int64(int(v)), v)[_NUM[0] % 3]
+    return v
+
+
+
 def body(chk):
     from pyuncertainnumber import pba
     from pyuncertainnumber.pba.params import Params
@@ -145,11 +159,11 @@ def body(chk):
         sd = F(rng.choice([1, 2, 1, 3]), rng.choice([1, 2, 4]))
         for via in ("mean_std", "mean_var", "known_properties"):
             if via == "mean_std":
-                f = lambda: pba.mean_std(float(mu), float(sd))
+                f = lambda: pba.mean_std(num(mu), num(sd))
             elif via == "mean_var":
-                f = lambda: pba.mean_var(float(mu), float(sd * sd))
+                f = lambda: pba.mean_var(num(mu), num(sd * sd))
             else:
-                f = lambda: pba.known_properties(mean=float(mu), std=float(sd))
+                f = lambda: pba.known_properties(mean=num(mu), std=num(sd))
             site = f"free:{via}"
             what = f"{via}(mean={float(mu)}, std={float(sd)})"
             replay = {"kind": "oracle", "constructor": via, "mean": float(mu), "std": float(sd)}
@@ -202,27 +216,27 @@ def body(chk):
         slack = F(rng.choice([0, 0, 1, 4]), 4)           # the stated range may be wider than the support
         a, b = mn - slack, mx + slack
         specs = [
-            ("min_max", lambda: pba.min_max(float(a), float(b)), (), (), None),
-            ("min_mean", lambda: pba.min_mean(float(a), float(mu)), (), (n - 1,), ("FMinMean", [float(a), float(mu)])),
-            ("max_mean", lambda: pbox_free.max_mean(float(b), float(mu)), (0,), (), None),
-            ("min_max_mean", lambda: pba.min_max_mean(float(a), float(b), float(mu)), (), (), ("FMinMaxMean", [float(a), float(b), float(mu)])),
-            ("mean_std", lambda: pba.mean_std(float(mu), sd), (0,), (n - 1,), None),
-            ("min_max_mean_std", lambda: pba.min_max_mean_std(float(a), float(b), float(mu), sd), (), (), None),
-            ("min_max_mean_var", lambda: pba.min_max_mean_var(float(a), float(b), float(mu), float(var)), (), (), None),
-            ("known:min,max,mean", lambda: pba.known_properties(minimum=float(a), maximum=float(b), mean=float(mu)), (), (), None),
-            ("known:min,max", lambda: pba.known_properties(minimum=float(a), maximum=float(b)), (), (), None),
-            ("known:min,mean", lambda: pba.known_properties(minimum=float(a), mean=float(mu)), (), (n - 1,), None),
-            ("known:max,mean", lambda: pba.known_properties(maximum=float(b), mean=float(mu)), (0,), (), None),
-            ("known:mean,var", lambda: pba.known_properties(mean=float(mu), var=float(var)), (0,), (n - 1,), None),
-            ("known:min,max,mean,std", lambda: pba.known_properties(minimum=float(a), maximum=float(b), mean=float(mu), std=sd), (), (), None),
-            ("known:min,max,mean,var", lambda: pba.known_properties(minimum=float(a), maximum=float(b), mean=float(mu), var=float(var)), (), (), None),
+            ("min_max", lambda: pba.min_max(num(a), num(b)), (), (), None),
+            ("min_mean", lambda: pba.min_mean(num(a), num(mu)), (), (n - 1,), ("FMinMean", [float(a), float(mu)])),
+            ("max_mean", lambda: pbox_free.max_mean(num(b), num(mu)), (0,), (), None),
+            ("min_max_mean", lambda: pba.min_max_mean(num(a), num(b), num(mu)), (), (), ("FMinMaxMean", [float(a), float(b), float(mu)])),
+            ("mean_std", lambda: pba.mean_std(num(mu), sd), (0,), (n - 1,), None),
+            ("min_max_mean_std", lambda: pba.min_max_mean_std(num(a), num(b), num(mu), sd), (), (), None),
+            ("min_max_mean_var", lambda: pba.min_max_mean_var(num(a), num(b), num(mu), num(var)), (), (), None),
+            ("known:min,max,mean", lambda: pba.known_properties(minimum=num(a), maximum=num(b), mean=num(mu)), (), (), None),
+            ("known:min,max", lambda: pba.known_properties(minimum=num(a), maximum=num(b)), (), (), None),
+            ("known:min,mean", lambda: pba.known_properties(minimum=num(a), mean=num(mu)), (), (n - 1,), None),
+            ("known:max,mean", lambda: pba.known_properties(maximum=num(b), mean=num(mu)), (0,), (), None),
+            ("known:mean,var", lambda: pba.known_properties(mean=num(mu), var=num(var)), (0,), (n - 1,), None),
+            ("known:min,max,mean,std", lambda: pba.known_properties(minimum=num(a), maximum=num(b), mean=num(mu), std=sd), (), (), None),
+            ("known:min,max,mean,var", lambda: pba.known_properties(minimum=num(a), maximum=num(b), mean=num(mu), var=num(var)), (), (), None),
         ]
         if a >= 0 and mu > 0:
-            specs.append(("pos_mean_std", lambda: pba.pos_mean_std(float(mu), sd), (0,), (n - 1,), ("FPosMeanStd", [float(mu), sd])))
+            specs.append(("pos_mean_std", lambda: pba.pos_mean_std(num(mu), sd), (0,), (n - 1,), ("FPosMeanStd", [float(mu), sd])))
         med = d.median()
         if med is not None:
-            specs.append(("min_max_median", lambda: pba.min_max_median(float(a), float(b), float(med)), (), (), ("FMinMaxMedian", [float(a), float(b), float(med)])))
-            specs.append(("known:min,max,median", lambda: pba.known_properties(minimum=float(a), maximum=float(b), median=float(med)), (), (), None))
+            specs.append(("min_max_median", lambda: pba.min_max_median(num(a), num(b), num(med)), (), (), ("FMinMaxMedian", [float(a), float(b), float(med)])))
+            specs.append(("known:min,max,median", lambda: pba.known_properties(minimum=num(a), maximum=num(b), median=num(med)), (), (), None))
         boundary = (mu - a) * (b - mu) - var <= F(1, 10 ** 6) * max(var, F(1, 10 ** 6))    # the largest variance the range and mean allow
         for name, f, exl, exr, coq in specs:
             if boundary and name in ("min_max_mean_std", "min_max_mean_var", "known:min,max,mean,std", "known:min,max,mean,var"):
@@ -243,7 +257,7 @@ def body(chk):
     for it in range(n_rand):
         mn = F(rng.choice([0, 1, -2, 5]))
         mu = mn + F(rng.choice([1, 2, 5, 1]), rng.choice([1, 2, 4]))
-        LR = build("free:min_mean", f"min_mean({float(mn)}, {float(mu)})", lambda: pba.min_mean(float(mn), float(mu)), {"kind": "oracle", "min": float(mn), "mean": float(mu)})
+        LR = build("free:min_mean", f"min_mean({float(mn)}, {float(mu)})", lambda: pba.min_mean(num(mn), num(mu)), {"kind": "oracle", "min": num(mn), "mean": num(mu)})
         if LR is None:
             continue
         for t in [F(rng.randint(1, 199) * 2 + 1, 400) for _ in range(4)] + [F(1, 2), F(1, 10)]:
